@@ -566,10 +566,199 @@ def unparse(node):
 
 
 # --------------------------------------------------------------------------
+# Rewrite distance from the reference tree
+# --------------------------------------------------------------------------
+REWRITE_LIMIT = int(os.environ.get("RIGVERIF_REWRITE_LIMIT", "12"))
+
+
+def heavily_rewritten(dist, n_old):
+    """More than REWRITE_LIMIT statements of the function (and of the new
+    helpers it calls) are not statements of the reference function.  The
+    limit was chosen on the kept changes: no kept breaking change that a
+    rule reports touches that many statements of the function the report
+    is about (their median is 3 changed lines), the kept refactorings'
+    median is 25 changed lines.  A share of the function's size was tried
+    as a second criterion and dropped: small functions rewritten wholesale
+    by a breaking change were withheld."""
+    return dist is not None and dist > REWRITE_LIMIT
+_REF_BODIES = None
+_PRISTINE = {}
+
+
+def stmt_signatures(fn):
+    """One string per statement of fn (nested functions included, docstrings
+    and the statements of ``_virtual`` helper copies excluded): the unparsed
+    text of a simple statement, the header of a compound one."""
+    out = []
+    todo = list(fn.body)
+    first = True
+    while todo:
+        s = todo.pop()
+        if getattr(s, "_virtual", False):
+            continue
+        if isinstance(s, ast.Expr) and isinstance(s.value, ast.Constant) \
+                and isinstance(s.value.value, str):
+            continue
+        if isinstance(s, (ast.FunctionDef, ast.AsyncFunctionDef,
+                          ast.ClassDef)):
+            out.append("def %s(%s)" % (s.name, ast.unparse(s.args)
+                                       if hasattr(s, "args") else ""))
+            todo.extend(s.body)
+        elif isinstance(s, (ast.If, ast.While)):
+            out.append("%s %s" % (type(s).__name__, ast.unparse(s.test)))
+            todo.extend(s.body + s.orelse)
+        elif isinstance(s, (ast.For, ast.AsyncFor)):
+            out.append("for %s in %s" % (ast.unparse(s.target),
+                                         ast.unparse(s.iter)))
+            todo.extend(s.body + s.orelse)
+        elif isinstance(s, (ast.With, ast.AsyncWith)):
+            out.append("with %s" % ", ".join(ast.unparse(i)
+                                             for i in s.items))
+            todo.extend(s.body)
+        elif isinstance(s, ast.Try):
+            for h in s.handlers:
+                out.append("except %s" % (ast.unparse(h.type)
+                                          if h.type else ""))
+                todo.extend(h.body)
+            todo.extend(s.body + s.orelse + s.finalbody)
+        elif hasattr(ast, "Match") and isinstance(s, ast.Match):
+            out.append("match %s" % ast.unparse(s.subject))
+            for c in s.cases:
+                todo.extend(c.body)
+        else:
+            try:
+                out.append(" ".join(ast.unparse(s).split()))
+            except Exception:
+                out.append(type(s).__name__)
+    return out
+
+
+def _ref_bodies():
+    global _REF_BODIES
+    if _REF_BODIES is None:
+        path = os.path.join(os.path.dirname(os.path.abspath(__file__)),
+                            "reference_bodies.json")
+        try:
+            with open(path) as f:
+                _REF_BODIES = json.load(f)
+        except (IOError, OSError, ValueError):
+            _REF_BODIES = {}
+    return _REF_BODIES
+
+
+def _pristine(program, modname):
+    """A fresh parse of the module (the working tree of a Module is edited
+    by _nest_new_helpers and by rules that unroll loops)."""
+    key = (id(program), modname)
+    if key not in _PRISTINE:
+        m = program.modules[modname]
+        _PRISTINE[key] = Module(modname, m.path, m.src)
+    return _PRISTINE[key]
+
+
+def rewrite_distance(program, modname, qualname, _depth=0, _seen=None):
+    """(number of statements of the current function - and of the functions
+    it calls that the reference tree did not have - that the reference
+    function does not contain, number of statements of the reference
+    function).  (None, None) when there is no reference to compare with."""
+    ref = _ref_bodies()
+    if not ref or modname not in program.modules:
+        return None, None
+    m = _pristine(program, modname)
+    fn = m.defs.get(qualname)
+    if not isinstance(fn, (ast.FunctionDef, ast.AsyncFunctionDef)):
+        return None, None
+    _seen = _seen if _seen is not None else set()
+    if (modname, qualname) in _seen:
+        return 0, 0
+    _seen.add((modname, qualname))
+    cur = stmt_signatures(fn)
+    old = list(ref.get(modname, {}).get(qualname, []))
+    n_old = len(old)
+    dist = 0
+    for sig in cur:
+        if sig in old:
+            old.remove(sig)
+        else:
+            dist += 1
+    # functions the reference tree did not have, called from here
+    known = _known_names().get(modname, {})
+    cls = qualname.rsplit(".", 1)[0] if "." in qualname else None
+    if _depth < 3:
+        for c in ast.walk(fn):
+            if not isinstance(c, ast.Call):
+                continue
+            q = None
+            if isinstance(c.func, ast.Name):
+                q = c.func.id
+            elif isinstance(c.func, ast.Attribute) and isinstance(
+                    c.func.value, ast.Name) and cls is not None and \
+                    c.func.value.id in ("self", "cls", cls):
+                q = cls + "." + c.func.attr
+            if q is None:
+                continue
+            if q in m.defs and q not in known and isinstance(
+                    m.defs[q], (ast.FunctionDef, ast.AsyncFunctionDef)):
+                d2, _ = rewrite_distance(program, modname, q, _depth + 1,
+                                         _seen)
+                dist += d2 or 0
+            elif q not in m.defs and ":" in m.imports.get(q, ""):
+                mod2, _, nm2 = m.imports[q].partition(":")
+                if mod2 in program.modules and nm2 not in \
+                        _known_names().get(mod2, {nm2: 1}):
+                    d2, _ = rewrite_distance(program, mod2, nm2,
+                                             _depth + 1, _seen)
+                    dist += d2 or 0
+    return dist, n_old
+
+
+def finding_function(program, node, instance):
+    """(module, qualname) of the outermost function a finding is about."""
+    n = node
+    top = None
+    mod = None
+    while n is not None:
+        if isinstance(n, (ast.FunctionDef, ast.AsyncFunctionDef)) and \
+                not getattr(n, "_virtual", False) and \
+                hasattr(n, "_qualname"):
+            top = n
+        if hasattr(n, "_module"):
+            mod = n._module
+        n = getattr(n, "_parent", None)
+    if top is not None and getattr(top, "_module", None) is not None:
+        # the outermost def that is a function (methods keep Class.method)
+        q = top._qualname
+        m = top._module
+        # climb to the host if this def is nested in another function
+        parts = q.split(".")
+        for i in range(1, len(parts)):
+            host = ".".join(parts[:i])
+            if isinstance(m.defs.get(host), (ast.FunctionDef,
+                                             ast.AsyncFunctionDef)):
+                q = host
+                break
+        return m.name, q
+    if isinstance(instance, str) and ":" in instance:
+        modname, _, q = instance.partition(":")
+        m = program.modules.get(modname)
+        if m is not None:
+            parts = q.split(".")
+            for i in range(1, len(parts) + 1):
+                host = ".".join(parts[:i])
+                if isinstance(m.defs.get(host), (ast.FunctionDef,
+                                                 ast.AsyncFunctionDef)):
+                    return modname, host
+    return None
+
+
+# --------------------------------------------------------------------------
 # Reports
 # --------------------------------------------------------------------------
 class Finding(object):
-    def __init__(self, prop, rule, instance, construct, message, node=None):
+    def __init__(self, prop, rule, instance, construct, message, node=None,
+                 positive=False):
+        self.positive = positive
+        self.node = node
         self.prop = prop
         self.rule = rule
         self.instance = instance      # module:qualname of the offending def
@@ -613,14 +802,20 @@ class Report(object):
         self.counts[rule] = self.counts.get(rule, 0) + 1
 
     # a rule instance that is violated
-    def bad(self, rule, instance, construct, message, node=None):
+    def bad(self, rule, instance, construct, message, node=None,
+            positive=False):
+        """``positive``: the finding is a contradiction derived from what the
+        code does (a value bound to the wrong parameter, an argument changed
+        in place, a name nothing binds) rather than the absence of something
+        the rule expected to find; only the latter kind is withheld in
+        functions rewritten since the reference tree."""
         self.obligations.append(dict(rule=rule, instance=instance,
                                      fact=message,
                                      where=where(node) if node is not None
                                      else "", ok=False))
         self.counts[rule] = self.counts.get(rule, 0) + 1
         self.findings.append(Finding(self.prop, rule, instance, construct,
-                                     message, node))
+                                     message, node, positive))
 
     def check(self, cond, rule, instance, text, construct=None, node=None,
               fail=None):
@@ -757,6 +952,60 @@ def _is_reference(prop, program):
     return ref.get(prop) in (None, program.digest())
 
 
+def _withhold_rewritten(report, program):
+    """Findings that say 'the expected construct was not found / could not
+    be shown' about a function that differs from the reference tree in more
+    than REWRITE_LIMIT statements are withheld: the rule was confirmed to
+    read the reference form completely, and near it the absence of an
+    expected construct means it was removed; in a function rewritten to
+    that extent it more often means the construct is spelt in a way the
+    rule does not read.  No verdict then (UNDECIDED), never an alarm."""
+    if REWRITE_LIMIT < 0 or not report.findings:
+        return
+    keep, held = [], {}
+    cache = {}
+    for fd in report.findings:
+        if fd.positive:
+            keep.append(fd)
+            continue
+        key = finding_function(program, fd.node, fd.instance)
+        if key is None:
+            keep.append(fd)
+            continue
+        if key not in cache:
+            try:
+                cache[key] = rewrite_distance(program, key[0], key[1])
+            except Exception:
+                cache[key] = (None, None)
+        dist, n_old = cache[key]
+        if not heavily_rewritten(dist, n_old):
+            keep.append(fd)
+            continue
+        held.setdefault(key, []).append(fd)
+    if not held:
+        return
+    report.findings = keep
+    for key, fds in sorted(held.items()):
+        if os.environ.get("RIGVERIF_SHOW_WITHHELD"):
+            for fd in fds:
+                print("WITHHELD %s %s: %s" % (fd.rule, fd.instance,
+                                              fd.message))
+        for fd in fds:
+            for ob in report.obligations:
+                if ob.get("ok") is False and ob["rule"] == fd.rule and \
+                        ob["instance"] == fd.instance and \
+                        ob["fact"] == fd.message:
+                    ob["ok"] = None
+        dist, n_old = cache[key]
+        report.undecided(
+            sorted(set(fd.rule for fd in fds)),
+            "%d report(s) about %s:%s withheld: %d of its statements are not "
+            "those of the reference tree (limit %d; the reference function "
+            "has %d) - in a function rewritten to that extent a rule that "
+            "does not find what it expects has no verdict" % (
+                len(fds), key[0], key[1], dist, REWRITE_LIMIT, n_old or 0))
+
+
 def finish(report, program, explanation, not_decided, trusted=None,
            exhaustive=False, extra=None):
     """Check floors, split findings into known / new, write evidence, print the
@@ -783,6 +1032,8 @@ def finish(report, program, explanation, not_decided, trusted=None,
         # on changed code it means the construct was restructured beyond
         # what the rule reads: no verdict from that rule
         report.undecided([m.split()[1]], "floor not met: " + m)
+
+    _withhold_rewritten(report, program)
 
     known = load_known()
     known_keys = {}
